@@ -110,10 +110,12 @@ pub mod op {
     pub const LOAD: u32 = 26;
     pub const DUPLICATE: u32 = 27;
     pub const GET_OR_CREATE: u32 = 28;
-    pub const NOPS: u32 = 29;
-    pub const NAMES: [&str; 29] = [
+    /// copy into ANOTHER model (used by C13 to reach cross-version copies)
+    pub const COPY_X: u32 = 29;
+    pub const NOPS: u32 = 30;
+    pub const NAMES: [&str; 30] = [
         "create", "create_at", "named", "named_at", "copy", "copy_at", "move", "move_at", "remove", "remove_kind", "rename", "set_data", "remove_data", "insert_char_item", "remove_char_item", "set_attr",
-        "remove_attr", "set_ref", "set_comment", "sort", "create_file", "remove_file", "add_to_file", "remove_from_file", "set_filename", "set_version", "load", "duplicate", "get_or_create",
+        "remove_attr", "set_ref", "set_comment", "sort", "create_file", "remove_file", "add_to_file", "remove_from_file", "set_filename", "set_version", "load", "duplicate", "get_or_create", "copy_x",
     ];
 }
 
@@ -195,14 +197,17 @@ pub const FIXTURE_DOC: &str = r#"<?xml version="1.0" encoding="utf-8"?>
  <ELEMENTS>
   <I-SIGNAL><SHORT-NAME>x9</SHORT-NAME><SYSTEM-SIGNAL-REF DEST="SYSTEM-SIGNAL">/pkg1/a2</SYSTEM-SIGNAL-REF></I-SIGNAL>
   <SYSTEM-SIGNAL><SHORT-NAME>a2</SHORT-NAME></SYSTEM-SIGNAL>
+  <SYSTEM-SIGNAL><SHORT-NAME>a2_1</SHORT-NAME></SYSTEM-SIGNAL>
  </ELEMENTS>
  <AR-PACKAGES><AR-PACKAGE><SHORT-NAME>a</SHORT-NAME></AR-PACKAGE></AR-PACKAGES>
 </AR-PACKAGE>
 <AR-PACKAGE><SHORT-NAME>pkg10</SHORT-NAME>
  <ELEMENTS>
   <I-SIGNAL><SHORT-NAME>x9</SHORT-NAME><DESC><L-2 L="EN">some <TT TYPE="SGMLTAG">tag</TT> text</L-2></DESC></I-SIGNAL>
+  <I-SIGNAL><SHORT-NAME BLUEPRINT-VALUE="bp">x9_1</SHORT-NAME><SYSTEM-SIGNAL-REF DEST="SYSTEM-SIGNAL">/pkg1/a2_1</SYSTEM-SIGNAL-REF></I-SIGNAL>
  </ELEMENTS>
 </AR-PACKAGE>
+<AR-PACKAGE><SHORT-NAME>e</SHORT-NAME></AR-PACKAGE>
 </AR-PACKAGES></AUTOSAR>"#;
 
 /// second view: shares /a and /pkg1, adds elements (mergeable with FIXTURE_DOC)
@@ -475,12 +480,41 @@ impl World {
         Some((self.pick_elem(o.a, o.d)?, self.pick_file(o.b)?))
     }
 
-    /// the (destination parent, source) a copy / move op will resolve to (same resolution as apply)
-    pub fn peek_copy_move(&self, o: &Op) -> Option<(usize, usize)> {
-        let sid = self.pick_elem(o.b, o.d.rotate_left(4))?;
+    /// cross-model copy: the source is an element with content, the destination a parent in another model that lists its name
+    pub fn peek_copy_x(&self, o: &Op) -> Option<(usize, usize)> {
+        let sid = self.pick_elem_where(o.b, 0, |e| e.element_name() != ElementName::Autosar && e.element_name() != ElementName::ShortName)?;
+        let ms = self.model_of(sid);
         let sname = self.elems[sid].element_name();
         let si = SpecIndex::get();
-        let pid = self.pick_elem_where(o.a, o.d, |e| si.types[si.id_of(e.element_type())].subs.iter().any(|s| s.name == sname))?;
+        let cands: Vec<usize> = self
+            .live
+            .iter()
+            .enumerate()
+            .filter(|(mi, _)| *mi != ms)
+            .flat_map(|(_, l)| l.iter().map(|(i, _)| *i))
+            .filter(|i| si.types[si.id_of(self.elems[*i].element_type())].subs.iter().any(|s| s.name == sname))
+            .collect();
+        if cands.is_empty() {
+            return None;
+        }
+        Some((cands[pick(cands.len(), o.a)], sid))
+    }
+
+    /// the (destination parent, source) a copy / move op resolves to (used by apply and by the exclusion predicates)
+    pub fn peek_copy_move(&self, o: &Op) -> Option<(usize, usize)> {
+        if o.code == op::COPY_X {
+            return self.peek_copy_x(o);
+        }
+        // one in five: the source is a non-identifiable container that holds identifiable elements (ELEMENTS, AR-PACKAGES, ...)
+        let sid = if o.c % 5 == 0 {
+            self.pick_elem_where(o.b, 0, |e| !e.is_identifiable() && e.element_name() != ElementName::Autosar && e.sub_elements().any(|k| k.is_identifiable()))?
+        } else {
+            self.pick_elem(o.b, o.d.rotate_left(4))?
+        };
+        let sname = self.elems[sid].element_name();
+        let si = SpecIndex::get();
+        let pid = self.pick_elem_where(o.a, o.d, |e| si.types[si.id_of(e.element_type())].subs.iter().any(|s| s.name == sname) && e.get_sub_element(sname).is_none())
+            .or_else(|| self.pick_elem_where(o.a, o.d, |e| si.types[si.id_of(e.element_type())].subs.iter().any(|s| s.name == sname)))?;
         Some((pid, sid))
     }
 
@@ -676,13 +710,10 @@ impl World {
                     }
                 }
             }
-            COPY | COPY_AT | MOVE | MOVE_AT => {
-                let Some(sid) = self.pick_elem(o.b, o.d.rotate_left(4)) else { skip!("no element".to_string()) };
-                let src = self.elems[sid].clone();
+            COPY | COPY_AT | MOVE | MOVE_AT | COPY_X => {
                 // destination: prefer parents that list the source's element name
-                let sname = src.element_name();
-                let si = SpecIndex::get();
-                let Some(pid) = self.pick_elem_where(o.a, o.d, |e| si.types[si.id_of(e.element_type())].subs.iter().any(|s| s.name == sname)) else { skip!("no element".to_string()) };
+                let Some((pid, sid)) = self.peek_copy_move(o) else { skip!("no element".to_string()) };
+                let src = self.elems[sid].clone();
                 let parent = self.elems[pid].clone();
                 res.model = self.model_of(pid);
                 let pos = pick(parent.content_item_count() + 2, o.c);
@@ -691,7 +722,7 @@ impl World {
                     skip!(format!("{}.move_element_here(self) [hangs: C12]", self.name_of(pid)));
                 }
                 match o.code {
-                    COPY => finish!(parent.create_copied_sub_element(&src), format!("{}.create_copied_sub_element({})", self.name_of(pid), self.name_of(sid))),
+                    COPY | COPY_X => finish!(parent.create_copied_sub_element(&src), format!("{}.create_copied_sub_element({})", self.name_of(pid), self.name_of(sid))),
                     COPY_AT => finish!(parent.create_copied_sub_element_at(&src, pos), format!("{}.create_copied_sub_element_at({}, {pos})", self.name_of(pid), self.name_of(sid))),
                     MOVE => finish!(parent.move_element_here(&src), format!("{}.move_element_here({})", self.name_of(pid), self.name_of(sid))),
                     _ => finish!(parent.move_element_here_at(&src, pos), format!("{}.move_element_here_at({}, {pos})", self.name_of(pid), self.name_of(sid))),
@@ -771,7 +802,15 @@ impl World {
                 res.model = mi;
                 let si = SpecIndex::get();
                 let ti = &si.types[si.id_of(e.element_type())];
-                let attr = if ti.attrs.is_empty() || o.b % 10 == 0 { si.attribute_names[pick(si.attribute_names.len(), o.b.rotate_left(6))] } else { ti.attrs[pick(ti.attrs.len(), o.b.rotate_left(6))].name };
+                let partial: Vec<&AttrInfo> = ti.attrs.iter().filter(|a| a.mask & ALL_VERSIONS_MASK != ALL_VERSIONS_MASK).collect();
+                let attr = if ti.attrs.is_empty() || o.b % 10 == 0 {
+                    si.attribute_names[pick(si.attribute_names.len(), o.b.rotate_left(6))]
+                } else if o.b % 10 < 4 && !partial.is_empty() {
+                    // attributes that exist in some versions only
+                    partial[pick(partial.len(), o.b.rotate_left(6))].name
+                } else {
+                    ti.attrs[pick(ti.attrs.len(), o.b.rotate_left(6))].name
+                };
                 if e.element_name() == ElementName::Autosar && matches!(attr, AttributeName::xmlns | AttributeName::xmlnsXsi | AttributeName::xsiSchemalocation) {
                     // domain restriction: the three header attributes of the root element are managed by the library
                     skip!(format!("{}.set/remove_attribute({attr}) [header attribute: not generated]", self.name_of(id)));
